@@ -8,6 +8,9 @@ V = Path(__file__).resolve().parents[1]
 sys.path.insert(0, str(V))
 from sa.variants import VARIANTS
 PROPS = sys.argv[1:] or [f"C{i:02d}" for i in range(1, 19)]
+ONLY = os.environ.get("VARIANT_ONLY")          # substring filter on variant names
+if ONLY:
+    VARIANTS = {k: v for k, v in VARIANTS.items() if any(o in k for o in ONLY.split("|"))}
 
 def one(item):
     name, gen = item
